@@ -230,6 +230,18 @@ theorem decode_order_irrelevant (o t t' : OpenMsg) (hp : t.caps.Perm t'.caps)
     SameParams (negotiate o t) (negotiate o t') :=
   negotiate_perm o t t' hp hAs hHold h4 hsr
 
+/-- The same on the wire: two encodings of the peer's OPEN — any two formats, any two groupings, the
+    capabilities of one a permutation of the other's — decode, and negotiate to the same parameters. -/
+theorem decode_bytes_order_irrelevant (o : OpenMsg) (ext ext' : Bool) (myAs hold bgpId : Nat)
+    (gs gs' : List (List Cap)) (hf : wfFixed myAs hold bgpId = true)
+    (hg : wfGroups ext gs = true) (hg' : wfGroups ext' gs' = true) (hp : gs.flatten.Perm gs'.flatten)
+    (h4 : asn4Single gs.flatten) (hsr : srSingle gs.flatten) :
+    ∃ t t', decodeOpen (encodeOpenG ext 4 myAs hold bgpId gs) = .ok t
+      ∧ decodeOpen (encodeOpenG ext' 4 myAs hold bgpId gs') = .ok t'
+      ∧ SameParams (negotiate o t) (negotiate o t') :=
+  ⟨_, _, decodeOpen_encG ext myAs hold bgpId gs hf hg, decodeOpen_encG ext' myAs hold bgpId gs' hf hg',
+    negotiate_perm o _ _ hp rfl rfl h4 hsr⟩
+
 /-! ## Refusals -/
 
 /-- **short → 1/2**: fewer than the 10 fixed octets. -/
